@@ -1,6 +1,7 @@
 """Handler-level halves of C04 and C05: the real server over stdio on generated workspaces, every
 request kind at every usage position, compared (a) with the Lean handler model and (b) with each
 other by the property's own cross-feature laws."""
+import ast as pyast_mod
 import binascii, re
 from . import core, stdio, wsgen
 
@@ -187,18 +188,20 @@ def c05_wire(run, tier):
     npos = nout = nhint = ncomp = 0
     for sc, ws in sessions:
         flags = flags_by_file_name(msp, mcases, sc.name)
-        defs_with_yield = set()
+        defs_with_yield = {}
         for p, pf in ws.files.items():
-            lines = pf.text().split("\n")
-            for (name, ln) in pf.defs:
-                # a generator fixture: implementation goes to the yield line
-                j = ln
-                while j < len(lines) and (lines[j].startswith(" ") or lines[j] == ""):
-                    if lines[j].strip().startswith("yield"):
-                        defs_with_yield.add((p, ln - 1)); break
-                    if lines[j] == "" and j + 1 < len(lines) and not lines[j + 1].startswith(" "):
-                        break
-                    j += 1
+            # a generator fixture: implementation goes to one of ITS yield lines (from the AST, so
+            # that a signature spread over several lines is read like any other)
+            try:
+                tree = pyast_mod.parse(pf.text())
+            except SyntaxError:
+                continue
+            for node in pyast_mod.walk(tree):
+                if isinstance(node, (pyast_mod.FunctionDef, pyast_mod.AsyncFunctionDef)):
+                    ys = {y.lineno - 1 for y in pyast_mod.walk(node)
+                          if isinstance(y, (pyast_mod.Yield, pyast_mod.YieldFrom))}
+                    if ys:
+                        defs_with_yield[(p, node.lineno - 1)] = ys
         for key, (a, m, k) in by.items():
             if key[0] != sc.name or key[1] != "definition":
                 continue
@@ -218,7 +221,7 @@ def c05_wire(run, tier):
                     problems.append(f"go-to-definition lands in {d[0]} but hover describes a fixture from {mf.group(1)}")
             if d is not None and im != "none":
                 di = loc_file_line(im)
-                if di and (di[0] != d[0] or (di[1] != d[1] and d not in defs_with_yield) or di[1] < d[1]):
+                if di and (di[0] != d[0] or (di[1] != d[1] and di[1] not in defs_with_yield.get(d, ()))):
                     problems.append(f"go-to-definition lands on {d[0]}:{d[1]} but go-to-implementation on {di[0]}:{di[1]}")
             if d is not None and pr != "none":
                 pl = loc_file_line(pr.split("|")[1])
